@@ -142,6 +142,9 @@ def s3(ck, an):
     for c in concrete:
         own = an.prog.lookup_method(c, "contains")
         ext = [b for b in c.ext_bases if b.split(".")[-1] in ("Box", "Discrete", "MultiDiscrete", "MultiBinary")]
+        if ext and not any(e.split(".")[-1] == "Box" for e in ext):
+            ck.check(own is None and "__contains__" not in c.methods, "MRO", "S3.discrete-membership-from-gymnasium", c.name, c.loc, f"{c.name} uses gymnasium's {ext[0]}.contains (integers 0..n-1 only)",
+                     f"{c.name} defines its own membership test, replacing gymnasium's {ext[0]}.contains", construct=f"{c.name}.contains")
         ck.check(own is not None or bool(ext), "MRO", "S3.contains-resolves", c.name, c.loc, f"{c.name}.contains resolves to {'its own implementation' if own else ext}",
                  f"{c.name} has no membership test besides the abstract Space.contains", construct=f"{c.name}.contains")
         ma = an.prog.lookup_method(c, "_make_allocation")
